@@ -691,6 +691,52 @@ def cfg_reuse_family(ctx, exe):
     return info, viol
 
 
+def numbering_probe(ctx, exe, defs, rng):
+    """'converting a raw number yields the variant WITH THAT NUMBER': the numbers are those of the DEFINITION (explicit
+    ones kept, everything else predecessor + 1 in declaration order).  The model sees the MIR of the real front end, so a
+    front end that loses the declaration order is invisible to it; here the emitted discriminants (token-stream facts)
+    are compared with the numbering computed from the ABSTRACT definition, in all four syntaxes, with the first variant
+    of every other definition in the manifest's extended form (a description) ahead of short-form variants."""
+    cases, want = [], {}
+    for i, (d, meta) in enumerate(defs):
+        d = copy.deepcopy(d)
+        nums, last = [], None
+        for v in meta["vals"]:
+            n = v if isinstance(v, int) else (0 if last is None else last + 1)
+            nums.append(n)
+            last = n
+        for o, _ in adef.walk(d["objects"]):
+            for _, fields in adef.field_sets(o):
+                for f in fields:
+                    c = f.get("conv")
+                    if c and c["type"] == "enum" and i % 2 == 0 and c["variants"]:
+                        c["variants"][0]["doc"] = "first"
+        for syn in ("dsl", "json", "yaml", "toml"):
+            cid = f"n{i}{syn}"
+            cases.append({"id": cid, "syntax": syn, "text": adef.render(d, syn, rng), "name": "Dev", "want": ["facts"]})
+            want[cid] = {vname(k).lower().replace("_", ""): n for k, n in enumerate(nums)}
+    res = gen_common.run_gen(ctx, exe, cases, tag="numprobe")
+    viol, n = [], 0
+    for c in cases:
+        r = res[c["id"]]
+        if r.get("status") != "ok" or not r.get("facts"):
+            viol.append({"what": "a definition accepted as DSL in the main phase is not accepted in this rendering",
+                         "failing_input": {"syntax": c["syntax"], "text": c["text"]}, "implementation": gen_common.canon_status(r),
+                         "message": r.get("message")})
+            continue
+        ens = [e for e in r["facts"].get("enums", []) if e["name"] == "En"]
+        if len(ens) != 1:
+            viol.append({"what": f"{len(ens)} generated enums named En", "failing_input": {"syntax": c["syntax"], "text": c["text"]}})
+            continue
+        got = {v["name"].lower().replace("_", ""): int(str(v["discriminant"]).replace(" ", "")) for v in ens[0]["variants"]}
+        n += len(got)
+        if got != want[c["id"]]:
+            viol.append({"what": "the emitted discriminants are not the definition's numbering (explicit numbers kept, otherwise "
+                                 "predecessor + 1 in declaration order): a raw number converts to another variant than the one declared with it",
+                         "failing_input": {"syntax": c["syntax"], "text": c["text"]}, "implementation": got, "expected": want[c["id"]]})
+    return n, viol[:3]
+
+
 # ---------------------------------------------------------------- the check
 
 def run_batch(ctx, exe, defs, name, keep=False, depth=0):
@@ -953,6 +999,10 @@ def run(ctx):
         nlines += nl
         violations += viol
         stats.update(st)
+    nnum, nv = numbering_probe(ctx, exe, [x for x in defs if len(x[1]["vals"]) <= 40][:24 if quick else 120], random.Random(ctx.seed + 11))
+    ctx.log("numbering probe: discriminants compared", nnum)
+    nlines += nnum
+    violations += nv
     nrej, rv = must_reject_probe(ctx, exe)
     nlines += nrej
     violations += rv
